@@ -288,6 +288,10 @@ func ssCase(c *mon.Case, r *mon.Run, dir string, f fault, attack string, seed ui
 
 // ---------------------------------------------------------------- meek_lite
 
+// hugeBody is what a hostile front streams as one response body before it
+// stalls: twice the heap bound.
+const hugeBody = 2 * heapBound
+
 // meekCase runs the real meek_lite client against a scripted raw HTTP peer.
 func meekCase(c *mon.Case, r *mon.Run, kind string, seed uint64) {
 	rng := mon.NewRand(seed)
@@ -374,6 +378,42 @@ func meekCase(c *mon.Case, r *mon.Run, kind string, seed uint64) {
 				sw.Write(b)
 			case "ok-empty":
 				fmt.Fprintf(sw, "HTTP/1.1 200 OK\r\nContent-Length: 0\r\n\r\n")
+			case "huge-body-no-length-then-stall", "huge-body-chunked-then-stall", "huge-body-declared-1GiB-then-stall":
+				// an answer whose body does not end: 48 MiB are streamed (as fast as
+				// the client takes them: the wire has a 64 KiB window), then the peer
+				// stalls with the connection open.  Later requests (on other
+				// connections) are answered normally.
+				if n > 1 {
+					fmt.Fprintf(sw, "HTTP/1.1 200 OK\r\nContent-Length: 0\r\n\r\n")
+					continue
+				}
+				sw.Out().SetWindow(1 << 16)
+				chunked := false
+				switch kind {
+				case "huge-body-no-length-then-stall":
+					fmt.Fprintf(sw, "HTTP/1.1 200 OK\r\nConnection: close\r\n\r\n")
+				case "huge-body-chunked-then-stall":
+					fmt.Fprintf(sw, "HTTP/1.1 200 OK\r\nTransfer-Encoding: chunked\r\n\r\n")
+					chunked = true
+				default:
+					fmt.Fprintf(sw, "HTTP/1.1 200 OK\r\nContent-Length: %d\r\n\r\n", 1<<30)
+				}
+				blk := make([]byte, 32768)
+				for sent := 0; sent < hugeBody; sent += len(blk) {
+					if chunked {
+						if _, err := fmt.Fprintf(sw, "%x\r\n", len(blk)); err != nil {
+							return
+						}
+					}
+					if _, err := sw.Write(blk); err != nil {
+						return
+					}
+					if chunked {
+						sw.Write([]byte("\r\n"))
+					}
+				}
+				io.Copy(io.Discard, br) // stall until the client gives up on this connection
+				return
 			}
 		}
 	}
@@ -422,7 +462,16 @@ func meekCase(c *mon.Case, r *mon.Run, kind string, seed uint64) {
 	} else {
 		close(rdDone)
 	}
+	huge := strings.HasPrefix(kind, "huge-body-")
+	var h0, h1 int64
+	if huge {
+		h0 = heapNow()
+	}
 	conn.Write([]byte("hello meek"))
+	if huge {
+		synctest.Wait() // the peer has streamed what the client took and stalls; no virtual time has passed
+		h1 = heapNow()
+	}
 	time.Sleep(20 * time.Minute) // beyond 10 retries x 30 s
 	synctest.Wait()
 	mu.Lock()
@@ -446,6 +495,16 @@ func meekCase(c *mon.Case, r *mon.Run, kind string, seed uint64) {
 			c.Violation("bloat/meek_lite/polling-while-application-does-not-read", fmt.Sprintf("%d requests (each answered with 65536 bytes) although the application never read", reqs), wit)
 		} else {
 			r.Count("meek_backpressure_ok", 1)
+		}
+	case "huge-body-no-length-then-stall", "huge-body-chunked-then-stall", "huge-body-declared-1GiB-then-stall":
+		// whatever the client does with such an answer (cut it off at its 64 KiB
+		// limit, or hand it on piece by piece), it must not hold on to it
+		r.Max("meek_heap_growth_during_endless_response", h1-h0)
+		wit["heap_growth"] = h1 - h0
+		if h1-h0 > heapBound {
+			c.Violation("bloat/meek_lite/"+kind, fmt.Sprintf("the heap grew by %d bytes while one meek_lite connection was receiving an HTTP answer whose body did not end (%d bytes streamed by the peer, %d delivered to the application)", h1-h0, hugeBody, g), wit)
+		} else {
+			r.Count("meek_endless_response_not_held", 1)
 		}
 	case "always-65536":
 		if mm >= 0 {
